@@ -612,3 +612,173 @@ Proof.
   induction init as [|[x v] init IH]; intros s I; cbn; [exact I|].
   apply IH. apply inv_assign. exact I.
 Qed.
+
+(* ================= histories: the model meets spec_steps ================= *)
+(* ---------- the observation the model predicts for a step ---------- *)
+Definition obs_of (s : state) (r : out) : sobs :=
+  {| s_ok := match r with OFail => false | _ => true end;
+     s_vals := snapshot s; s_strs := snapshot s;
+     s_text := match r with
+               | OVal v => match scalar_text v with Some t => t | None => [] end
+               | _ => []
+               end;
+     s_doc := match r with OVal v => Some v | _ => None end |}.
+
+Definition names_ok (s : state) : Prop := NoDup (map fst (vars s)).
+
+Lemma snap_eqb_refl a : snap_eqb a a = true.
+Proof.
+  unfold snap_eqb. induction a as [|[x v] a IH]; cbn; [reflexivity|].
+  rewrite bytes_eqb_refl, ojson_eqb_refl. exact IH.
+Qed.
+
+Lemma snap_get_snapshot s x : snap_get x (snapshot s) = value s x.
+Proof.
+  unfold snapshot, value. induction (vars s) as [|[y c] vs IH]; cbn; [reflexivity|].
+  destruct (bytes_eqb x y); [reflexivity|exact IH].
+Qed.
+
+Lemma var_find_nodup (vs : list (bytes * nat)) y c :
+  NoDup (map fst vs) -> In (y, c) vs -> var_find y vs = Some c.
+Proof.
+  induction vs as [|[z d] vs IH]; cbn; intros ND I; [contradiction|].
+  inversion ND as [|? ? Hn Hd]; subst.
+  destruct I as [E|I].
+  - inversion E; subst. rewrite bytes_eqb_refl. reflexivity.
+  - destruct (bytes_eqb y z) eqn:E.
+    + apply bytes_eqb_eq in E. subst. exfalso. apply Hn. apply (in_map fst) in I. exact I.
+    + apply IH; assumption.
+Qed.
+
+Lemma snapshot_entry s y v :
+  names_ok s -> In (y, v) (snapshot s) -> v = value s y.
+Proof.
+  intros ND I. unfold snapshot in I. apply in_map_iff in I.
+  destruct I as ([z c] & E & I). cbn in E. inversion E; subst.
+  unfold value. rewrite (var_find_nodup _ _ _ ND I). reflexivity.
+Qed.
+
+Lemma others_same_snap s s' x :
+  names_ok s -> names_ok s' ->
+  (forall y, x <> Some y -> value s' y = value s y) ->
+  others_same x (snapshot s) (snapshot s') = true.
+Proof.
+  intros N N' H. unfold others_same. apply andb_true_iff; split; apply forallb_forall; intros [y v] I; cbn [fst snd].
+  - destruct x as [x'|]; cbn.
+    + destruct (bytes_eqb x' y) eqn:E; [reflexivity|]. cbn.
+      rewrite snap_get_snapshot, (snapshot_entry _ _ _ N I), H; [apply ojson_eqb_refl|].
+      intro Q. inversion Q; subst. rewrite bytes_eqb_refl in E. discriminate.
+    + rewrite snap_get_snapshot, (snapshot_entry _ _ _ N I), H; [apply ojson_eqb_refl|discriminate].
+  - destruct x as [x'|]; cbn.
+    + destruct (bytes_eqb x' y) eqn:E; [reflexivity|]. cbn.
+      rewrite snap_get_snapshot, (snapshot_entry _ _ _ N' I), H; [apply ojson_eqb_refl|].
+      intro Q. inversion Q; subst. rewrite bytes_eqb_refl in E. discriminate.
+    + rewrite snap_get_snapshot, (snapshot_entry _ _ _ N' I), H; [apply ojson_eqb_refl|discriminate].
+Qed.
+
+Lemma in_names_var_set x c (vs : list (bytes * nat)) y :
+  In y (map fst (var_set x c vs)) -> y = x \/ In y (map fst vs).
+Proof.
+  induction vs as [|[z e] vs IH]; cbn.
+  - intros [H|[]]; auto.
+  - destruct (bytes_eqb x z) eqn:E; cbn.
+    + apply bytes_eqb_eq in E. subst. intros [H|H]; auto.
+    + intros [H|H]; auto. destruct (IH H); auto.
+Qed.
+
+Lemma names_var_set x c (vs : list (bytes * nat)) :
+  NoDup (map fst vs) -> NoDup (map fst (var_set x c vs)).
+Proof.
+  induction vs as [|[z e] vs IH]; cbn; intro ND.
+  - constructor; [intros []|constructor].
+  - inversion ND as [|? ? Hn Hd]; subst.
+    destruct (bytes_eqb x z) eqn:E; cbn.
+    + apply bytes_eqb_eq in E. subst. constructor; assumption.
+    + constructor; [|apply IH; exact Hd].
+      intro I. apply in_names_var_set in I. destruct I as [I|I]; [|contradiction].
+      subst. rewrite bytes_eqb_refl in E. discriminate.
+Qed.
+
+Lemma step_names reparse s o : names_ok s -> names_ok (fst (step reparse s o)).
+Proof.
+  intro N. destruct o as [dst src | x p n | src p n | x p]; cbn [step].
+  - destruct (value s src); cbn; [apply names_var_set|]; exact N.
+  - destruct (var_find x (vars s)); [|exact N]. destruct (heap_find _ _); [|exact N].
+    destruct (alter _ _ _); exact N.
+  - destruct (value s src); [|exact N]. destruct (alter _ _ _); exact N.
+  - destruct (value s x); [|exact N]. destruct (elookup _ _); exact N.
+Qed.
+
+Definition op_sane (o : op) : bool :=
+  match o with
+  | OSet _ _ n | OCall _ _ n => conv_sane n
+  | _ => true
+  end.
+
+Lemma read_shows_obs s v : read_shows v (obs_of s (OVal v)) = true.
+Proof.
+  unfold read_shows, obs_of. cbn [s_text s_doc].
+  destruct (scalar_text v); [apply bytes_eqb_refl|apply ojson_eqb_refl].
+Qed.
+
+(* every step of the model satisfies the per-step property predicate *)
+Lemma step_meets_spec s o r0 :
+  inv s -> names_ok s -> op_sane o = true ->
+  spec_step (obs_of s r0) o (obs_of (fst (step (fun v => v) s o)) (snd (step (fun v => v) s o))) = true.
+Proof.
+  intros I N S.
+  pose proof (step_names (fun v => v) s o N) as N'.
+  assert (FR : forall y, target o <> Some y ->
+               value (fst (step (fun v => v) s o)) y = value s y)
+    by (intros y T; apply step_frame; assumption).
+  unfold spec_step. cbn [s_vals s_strs obs_of]. rewrite snap_eqb_refl. cbn [andb].
+  destruct o as [dst src | x p n | src p n | x p]; cbn [op_sane target] in *.
+  - (* copy *)
+    cbn [step] in *. rewrite snap_get_snapshot.
+    destruct (value s src) as [v|] eqn:V; cbn [fst snd s_ok].
+    + rewrite others_same_snap; try assumption. cbn [andb].
+      rewrite snap_get_snapshot. cbn [fst]. rewrite value_assign_same. apply ojson_eqb_refl.
+    + apply others_same_snap; try assumption. intros y _. reflexivity.
+  - (* nested set *)
+    rewrite S. cbn [andb].
+    rewrite others_same_snap; try assumption. cbn [andb].
+    cbn [step] in *.
+    destruct (var_find x (vars s)) as [c|] eqn:Ex; [|reflexivity].
+    destruct (heap_find c (heap s)) as [v|] eqn:Ev; [|reflexivity].
+    destruct (alter v p n) as [v'| | |] eqn:Ea; try reflexivity.
+    cbn [fst snd s_ok]. rewrite !snap_get_snapshot.
+    unfold value at 1. rewrite Ex, Ev.
+    unfold value. cbn [vars heap]. rewrite Ex, heap_find_set_same.
+    apply alter_precise. exact Ea.
+  - (* call *)
+    rewrite S. cbn [andb].
+    rewrite others_same_snap; try assumption; try (intros y _; apply FR; discriminate). cbn [andb].
+    cbn [step] in *. rewrite snap_get_snapshot.
+    destruct (value s src) as [v|] eqn:V; [|reflexivity].
+    destruct (alter v p n) as [v'| | |] eqn:Ea; try reflexivity.
+    cbn [fst snd s_ok s_doc]. apply alter_precise. exact Ea.
+  - (* read *)
+    rewrite others_same_snap; try assumption; try (intros y _; apply FR; discriminate). cbn [andb].
+    cbn [step] in *. rewrite snap_get_snapshot.
+    destruct (value s x) as [v|] eqn:V; [|reflexivity].
+    destruct (lookup v p) as [r|] eqn:L; [|reflexivity].
+    destruct (is_null r) eqn:Nr; [reflexivity|].
+    rewrite (lookup_elookup _ _ _ L Nr). cbn [fst snd s_ok andb].
+    apply read_shows_obs.
+Qed.
+
+(* ... hence every history of the model satisfies spec_steps *)
+Lemma history_meets_spec ops : forall s r0,
+  inv s -> names_ok s -> forallb op_sane ops = true ->
+  spec_steps (obs_of s r0) ops
+    (map (fun sr => obs_of (fst sr) (snd sr)) (run (fun v => v) s ops)) = true.
+Proof.
+  induction ops as [|o ops IH]; intros s r0 I N S; [reflexivity|].
+  cbn in S. apply andb_true_iff in S. destruct S as [So S].
+  cbn [run]. destruct (step (fun v => v) s o) as [s' r] eqn:E.
+  cbn [map spec_steps fst snd].
+  pose proof (step_meets_spec s o r0 I N So) as H. rewrite E in H. cbn [fst snd] in H.
+  rewrite H. cbn [andb]. apply IH; [| |exact S].
+  - pose proof (step_inv (fun v => v) s o I) as I'. rewrite E in I'. exact I'.
+  - pose proof (step_names (fun v => v) s o N) as N'. rewrite E in N'. exact N'.
+Qed.
